@@ -83,7 +83,10 @@ class MieLens(ScatteringTheory):
         illum_polarization : 2-element tuple
             The (x, y) field polarizations.
         """
-        index_ratio = scatterer.n / medium_index
+        # mielensfunctions follows van de Hulst's conventions, in which an
+        # absorbing particle has a negative imaginary index; holopy's
+        # convention (Bohren & Huffman's, as for Mie) is a positive one:
+        index_ratio = np.conj(scatterer.n / medium_index)
         size_parameter = medium_wavevec * scatterer.r
 
         rho, phi, z = positions
